@@ -46,6 +46,37 @@ RAISE_KINDS = {
     'raise-Udoc':         "raise Udoc('only a docstring')",        # class with docstring, no pass
     'raise-from':         "raise ValueError('outer cause') from KeyError('inner cause')",
     'raise-from-None':    "raise U('no context') from None",
+    # builtins whose constructors take several arguments
+    'raise-UnicodeDecodeError': "raise UnicodeDecodeError('utf-8', b'\\xff', 0, 1, 'invalid start byte %d' % x)",
+    'raise-OSError-errno': "raise OSError(2, 'no such thing %d' % x)",
+    'raise-FileNotFoundError': "raise FileNotFoundError(2, 'missing file', 'name%d' % x)",
+    'raise-UnicodeEncodeError': "raise UnicodeEncodeError('ascii', 'x\\xe9', 1, 2, 'ordinal not in range')",
+    'raise-SyntaxError': "raise SyntaxError('bad syntax', ('f.py', x, 1, 'text'))",
+}
+# user classes with constructors of their own, deriving from EACH listed builtin, KeyError and some non-listed builtins:
+# Q<Base>0: __init__(self)   Q<Base>2: __init__(self, code, detail)   Q<Base>K: __init__(self, *, detail)
+CTOR_BASES = ['AssertionError', 'AttributeError', 'NameError', 'NotImplementedError', 'RuntimeError', 'StopIteration', 'TypeError',
+              'UnboundLocalError', 'ValueError', 'KeyError', 'ZeroDivisionError', 'OSError', 'LookupError', 'Exception', 'UnicodeDecodeError']
+CTOR_CLASSES = []
+_CTOR_SRC = []
+for _b in CTOR_BASES:
+    if _b == 'UnicodeDecodeError':
+        CTOR_CLASSES.append('QUnicodeDecodeErrorS')
+        _CTOR_SRC.append("class QUnicodeDecodeErrorS(UnicodeDecodeError):\n    pass\n")
+        RAISE_KINDS['raise-QUnicodeDecodeErrorS'] = "raise QUnicodeDecodeErrorS('utf-8', b'\\xff', 0, 1, 'subclass %d' % x)"
+        continue
+    _CTOR_SRC.append("class Q%s0(%s):\n    def __init__(self):\n        super().__init__('fixed message of Q%s0')\n" % (_b, _b, _b))
+    _CTOR_SRC.append("class Q%s2(%s):\n    def __init__(self, code, detail):\n        super().__init__('%%s: %%s' %% (code, detail))\n        self.code = code\n" % (_b, _b))
+    _CTOR_SRC.append("class Q%sK(%s):\n    def __init__(self, *, detail):\n        super().__init__(detail)\n        self.detail = detail\n" % (_b, _b))
+    CTOR_CLASSES += ['Q%s0' % _b, 'Q%s2' % _b, 'Q%sK' % _b]
+    RAISE_KINDS['raise-Q%s0' % _b] = "raise Q%s0()" % _b
+    RAISE_KINDS['raise-Q%s2' % _b] = "raise Q%s2(x, 'quota detail %%d' %% x)" % _b
+    RAISE_KINDS['raise-Q%sK' % _b] = "raise Q%sK(detail='keyword detail %%d' %% x)" % _b
+EXPR_KINDS_EXTRA = {
+    'UnicodeDecodeError-decode': ("b'\\xff\\xfe'.decode('utf-8')", []),
+    'UnicodeEncodeError-encode': ("'caf\\xe9'.encode('ascii')", []),
+    'FileNotFoundError-open': ("open('/nonexistent-c12/file%d' % x)", []),
+    'JSONDecodeError-like-ValueError': ("int('12x', 10)", []),
 }
 # failing statements that span several lines (compound statements whose one failing part is marked)
 BLOCK_KINDS = {
@@ -148,6 +179,8 @@ class Never(Exception):
     pass
 
 
+@CTOR@
+
 class CM:
     def __init__(self, v=0):
         self.v = v
@@ -215,6 +248,10 @@ class Obj:
         return fn(x)
 
 '''
+
+
+PRELUDE = PRELUDE.replace('@CTOR@\n', '\n\n'.join(_CTOR_SRC) + '\n')
+EXPR_KINDS.update(EXPR_KINDS_EXTRA)
 
 
 class _Ids:
